@@ -134,8 +134,8 @@ def int_slow():
 //@ paths split
 //@ requires item != nil && minVal <= 0 && 0 <= maxVal
 //@ modifies item.values
-//@ ensures [keeps] specKeepsI(item.values, old(item.values))
-//@ ensures [alias] fresh(item.values) || zzSameSlice(item.values[:0], old(item.values)[:0])
+//@ ensures [keeps] result == nil ==> specKeepsI(item.values, old(item.values))
+//@ ensures [alias] result == nil ==> fresh(item.values) || zzSameSlice(item.values[:0], old(item.values)[:0])
 """]
     lo = "len(old(item.values))"
     for t in ["int8", "int16", "int32"] + UNSIGNED_SMALL:
@@ -147,7 +147,7 @@ def int_slow():
     handled = ["int8", "int16", "int32"] + UNSIGNED_SMALL + UNSIGNED_BIG
     cond = " && ".join(["!specIs_%s(value) && !specIs_S_%s(value)" % (t, t) for t in handled] + ["!specIs_string(value)", "!specIs_S_string(value)"])
     out.append("//@ ensures [other] %s ==> result != nil\n" % cond)
-    out.append("//@ ensures [range] forall j :: len(old(item.values)) <= j && j < len(item.values) ==> minVal <= item.values[j] && item.values[j] <= maxVal\n")
+    out.append("//@ ensures [range] result == nil ==> forall j :: len(old(item.values)) <= j && j < len(item.values) ==> minVal <= item.values[j] && item.values[j] <= maxVal\n")
     return "".join(out)
 
 
@@ -184,8 +184,8 @@ def uint_slow():
 //@ paths split
 //@ requires item != nil
 //@ modifies item.values
-//@ ensures [keeps] specKeepsU(item.values, old(item.values))
-//@ ensures [alias] fresh(item.values) || zzSameSlice(item.values[:0], old(item.values)[:0])
+//@ ensures [keeps] result == nil ==> specKeepsU(item.values, old(item.values))
+//@ ensures [alias] result == nil ==> fresh(item.values) || zzSameSlice(item.values[:0], old(item.values)[:0])
 """]
     for t in UNSIGNED_SMALL:
         out.append("//@ ensures [%s] specIs_%s(value) ==> result == nil && len(item.values) == %s+1 && item.values[%s] == specSatU(uint64(value.(%s)), maxVal)\n" % (t, t, lo, lo, t))
@@ -194,7 +194,7 @@ def uint_slow():
         out.append("//@ ensures [%s] specIs_%s(value) ==> (result != nil) == (value.(%s) < 0)\n" % (t, t, t))
         out.append("//@ ensures [%sv] specIs_%s(value) && value.(%s) >= 0 ==> len(item.values) == %s+1 && item.values[%s] == specSatU(uint64(value.(%s)), maxVal)\n" % (t, t, t, lo, lo, t))
         out.append("//@ ensures [%ss] specIs_S_%s(value) && result == nil ==> len(item.values) == %s+len(value.([]%s)) &&\n//@     forall k :: 0 <= k && k < len(value.([]%s)) ==> value.([]%s)[k] >= 0 && item.values[%s+k] == specSatU(uint64(value.([]%s)[k]), maxVal)\n" % (t, t, lo, t, t, t, lo, t))
-    out.append("//@ ensures [range] forall j :: len(old(item.values)) <= j && j < len(item.values) ==> item.values[j] <= maxVal\n")
+    out.append("//@ ensures [range] result == nil ==> forall j :: len(old(item.values)) <= j && j < len(item.values) ==> item.values[j] <= maxVal\n")
     return "".join(out)
 
 
@@ -216,8 +216,8 @@ func specKeepsF(nw, old []float64) bool {
 //@ paths split
 //@ requires item != nil
 //@ modifies item.values
-//@ ensures [keeps] specKeepsF(item.values, old(item.values))
-//@ ensures [alias] fresh(item.values) || zzSameSlice(item.values[:0], old(item.values)[:0])
+//@ ensures [keeps] result == nil ==> specKeepsF(item.values, old(item.values))
+//@ ensures [alias] result == nil ==> fresh(item.values) || zzSameSlice(item.values[:0], old(item.values)[:0])
 """]
     for t in ["int8", "int16", "int32"] + UNSIGNED_SMALL:
         out.append("//@ ensures [%s] specIs_%s(value) ==> result == nil && len(item.values) == %s+1 && math.Float64bits(item.values[%s]) == math.Float64bits(float64(value.(%s)))\n" % (t, t, lo, lo, t))
